@@ -73,6 +73,7 @@ def run_programs(spec):
     rng = random.Random("c02/" + pipework.prog_seed(spec, -1))
     per_op = spec.get("per_op", 2)
     napp = 0
+    q = None
     for p, tag in pipework.base_programs(spec):
         r0 = core.api_run(p.name, p.text(), clock=False)
         if r0.outcome != "ok" or r0.errors():
@@ -98,7 +99,9 @@ def run_programs(spec):
                                   "only_second": [d for d in r2.diags if d not in r.diags][:3]})
             lk = q.lines[q.index_of_lineno(exp)].kind
             sh.cover("op_contexts", "%s/%s/%d" % (o["id"], lk, q.lines[q.index_of_lineno(exp)].depth))
-        sh.sample({"base": p.name, "operators": "all applicable of %d" % len(viol.OPS)}, cap=1)
+        if "q" in dir() and q is not None:
+            sh.sample({"operator": o["id"] + " " + o["name"], "designated_codes": list(o["codes"]), "expected_line": exp,
+                       "edited_line": q.text().split("\n")[exp - 1]}, cap=2)
     return sh
 
 
